@@ -28,6 +28,10 @@ def handle : List String → Option String
   | ["dict", qs] => some (showDict (parseInto [] (unhexStr qs)))
   | ["query", qs] => some (showDict (query (unhexStr qs)))
   | ["forms", body] => some (showDict (forms (unhexBytes body)))
+  | ["formsct", ct, body] =>
+    some (match formsCt (optStr ct) (unhexBytes body) with | some r => showDict r | none => "other")
+  | ["paramsct", ct, qs, body] =>
+    some (match paramsCt (optStr ct) (unhexStr qs) (unhexBytes body) with | some r => showDict r | none => "other")
   | ["params", qs, body] => some (showDict (params (unhexStr qs) (unhexBytes body)))
   | ["unquote", s] => some (hexStr (unquote (unhexStr s)))
   | ["decode", b] => some (hexStr (utf8DecReplace (unhexBytes b)))
